@@ -54,6 +54,10 @@ PartitionInv == stage = 2 =>
                 /\ \A C \in NerodePartition(D) : \E B \in VV : C \subseteq B
 DoneIsNerode == done => VV = NerodePartition(D)
 DoneResultOk == done => ResultOk(D, M)
+(* C13 inside the specification: the minimal-DFA checker compares the number of states with the   *)
+(* library's quotient (= the Myhill-Nerode classes of ALL states) and the languages               *)
+OwnAnswerPassesMinimalChecker ==
+  done => /\ M.S = D.S /\ Cardinality(M.Q) = NerodeClasses(D, D.Q) /\ FaEquiv(D, M)
 InputUnchanged == [][stage = 2 => D' = D]_vars
 Terminates == <>done
 =============================================================================
